@@ -6,6 +6,7 @@ import (
 	"io/ioutil"
 	"regexp"
 	"strings"
+	"sync"
 	"unicode"
 	"unicode/utf8"
 )
@@ -121,6 +122,25 @@ type lexer struct {
 	parens int   // Number of open parenthesis
 	width  int   // Number of bytes consumed by the last call to next
 	raw    bool  // True while lexing a verbatim tag; its body is not tokenized
+
+	done     chan struct{} // Closed when nobody will read tokens any more
+	stopOnce sync.Once
+}
+
+// stop tells the lexer that no more tokens will be read, so that tokenize
+// does not block forever on a token nobody receives.
+func (l *lexer) stop() {
+	l.stopOnce.Do(func() {
+		close(l.done)
+	})
+}
+
+// send delivers a token to the parser, unless the parser has gone away.
+func (l *lexer) send(tok token) {
+	select {
+	case l.tokens <- tok:
+	case <-l.done:
+	}
 }
 
 var (
@@ -149,7 +169,10 @@ func (l *lexer) tokenize() {
 func newLexer(input io.Reader) *lexer {
 	// TODO: lexer should use the reader.
 	i, _ := ioutil.ReadAll(input)
-	return &lexer{0, 0, 1, 0, string(i), make(chan token), nil, modeNormal, token{}, 0, 0, false}
+	return &lexer{
+		start: 0, pos: 0, line: 1, offset: 0, input: string(i), tokens: make(chan token),
+		mode: modeNormal, done: make(chan struct{}),
+	}
 }
 
 func (l *lexer) next() (val string) {
@@ -198,7 +221,7 @@ func (l *lexer) emit(t tokenType) {
 		l.offset += len(val)
 	}
 
-	l.tokens <- tok
+	l.send(tok)
 	l.start = l.pos
 	if tok.tokenType == tokenEOF {
 		close(l.tokens)
@@ -208,7 +231,7 @@ func (l *lexer) emit(t tokenType) {
 
 func (l *lexer) errorf(format string, args ...interface{}) stateFn {
 	tok := token{fmt.Sprintf(format, args...), tokenError, Pos{l.line, l.offset}}
-	l.tokens <- tok
+	l.send(tok)
 
 	return nil
 }
